@@ -3,6 +3,7 @@ package main
 import (
 	"bytes"
 	"encoding/json"
+	"encoding/xml"
 	"fmt"
 	"io"
 	"os"
@@ -41,9 +42,10 @@ type streamLine struct {
 		S int `json:"s"`
 		E int `json:"e"`
 	} `json:"docs"`
-	Sched []string     `json:"sched"`
-	Hret  string       `json:"hret"`
-	Calls []streamCall `json:"calls"`
+	Sched  []string     `json:"sched"`
+	Hret   string       `json:"hret"`
+	Calls  []streamCall `json:"calls"`
+	Custom string       `json:"custom"`
 }
 
 // scripted reader: one schedule token per Read call
@@ -301,10 +303,57 @@ func pick(data []byte, idx []int) []byte {
 	return b
 }
 
+// With a CustomDecoder (caller-supplied xml.Decoder settings, here a pass-through CharsetReader) the stream readers decode a
+// document that declares another encoding exactly as NewMapXml does: the option is honoured, or ignored, by all entry points alike.
+// Runs once, before the workers start (the option is package-level).
+var streamCustomFinding string
+
+func streamCustomDecoderCheck() {
+	defer func() { mxj.CustomDecoder = nil; mxj.XmlCharsetReader = nil }()
+	pass := func(label string, input io.Reader) (io.Reader, error) { return input, nil }
+	docs := []string{`<?xml version="1.0" encoding="ISO-8859-1"?><a><b>x</b></a>`, `<?xml version="1.0" encoding="us-ascii"?><c d="1"/>`, `<e>y</e>`}
+	for _, setting := range []string{"CustomDecoder with a CharsetReader", "XmlCharsetReader only"} {
+		if setting == "XmlCharsetReader only" {
+			mxj.CustomDecoder = nil
+			mxj.XmlCharsetReader = pass
+		} else {
+			mxj.CustomDecoder = &xml.Decoder{Strict: false, CharsetReader: pass}
+			mxj.XmlCharsetReader = nil
+		}
+		for _, d := range docs {
+			want, werr := mxj.NewMapXml([]byte(d))
+			m1, e1 := mxj.NewMapXmlReader(hideByteReader{strings.NewReader(d)})
+			m2, raw, e2 := mxj.NewMapXmlReaderRaw(hideByteReader{strings.NewReader(d)})
+			var m3 mxj.Map
+			mxj.HandleXmlReader(hideByteReader{strings.NewReader(d)}, func(m mxj.Map) bool { m3 = m; return true }, func(error) bool { return false })
+			w := canonOrNil(want) + cls(werr)
+			if g := canonOrNil(m1) + cls(e1); g != w {
+				streamCustomFinding = fmt.Sprintf("%s: NewMapXmlReader(%q) = %s, NewMapXml gives %s", setting, d, g, w)
+			} else if g := canonOrNil(m2) + cls(e2); g != w || (werr == nil && string(raw) != d) {
+				streamCustomFinding = fmt.Sprintf("%s: NewMapXmlReaderRaw(%q) = %s (raw %q), NewMapXml gives %s", setting, d, g, raw, w)
+			} else if werr == nil && canonOrNil(m3) != canonOrNil(want) {
+				streamCustomFinding = fmt.Sprintf("%s: HandleXmlReader(%q) handed over %s, NewMapXml gives %s", setting, d, canonOrNil(m3), w)
+			}
+		}
+	}
+}
+
 func replayStream(line []byte, a *Acc) {
 	var l streamLine
 	if err := json.Unmarshal(line, &l); err != nil {
 		panic(err)
+	}
+	if streamCustomFinding != "" {
+		a.mu.Lock()
+		f := streamCustomFinding
+		streamCustomFinding = ""
+		a.mu.Unlock()
+		if f != "" {
+			a.Mis("stream:xml:custom-decoder", f, map[string]string{"f": "stream", "custom": "1"})
+		}
+	}
+	if l.Mode == "" && l.Custom != "" {
+		return // (replay case of the finding above: the check has just run again)
 	}
 	if l.Mode == "" {
 		checkLongZeroReads(a) // (replay case of a long-zero-read finding)
@@ -491,7 +540,7 @@ func replayStream(line []byte, a *Acc) {
 }
 
 func init() {
-	register("stream", &family{replay: replayStream,
+	register("stream", &family{replay: replayStream, initOnce: streamCustomDecoderCheck,
 		rule: "one case = (stream profile, complete reader schedule incl. handler verdicts, entry point, concrete syntax variant); non-trivial = the schedule contains a (0,nil) read or data+EOF, or the stream holds more than one document"})
 }
 
@@ -710,14 +759,22 @@ func replayFile(line []byte, a *Acc) {
 			}
 			return xmlStream(l.ID, 0)
 		}
-		for k := range l.Docs {
+		for kk := 0; kk < 2*len(l.Docs); kk++ {
+			k, variant := kk/2, kk%2
 			data := whole()
 			doc := data[l.Docs[k].S-1 : l.Docs[k].E]
 			if l.Mode == "json" {
+				if variant == 1 {
+					continue
+				}
 				doc[0] = '}'
 			} else if i := bytes.LastIndex(doc, []byte("</")); i >= 0 && i+2 < len(doc) {
-				doc[i+2] = '!'
-			} else if i := bytes.LastIndexByte(doc, '/'); i >= 0 {
+				if variant == 0 {
+					doc[i+2] = '!'
+				} else {
+					doc[i+2] = 'q' // a well-formed end tag of ANOTHER name: nothing to repair, an error
+				}
+			} else if i := bytes.LastIndexByte(doc, '/'); i >= 0 && variant == 0 {
 				doc[i] = '<'
 			} else {
 				continue
@@ -733,7 +790,7 @@ func replayFile(line []byte, a *Acc) {
 					exp = append(exp, canonOrNil(m))
 				}
 			}
-			name := filepath.Join(dir, fmt.Sprintf("corrupt%d", k))
+			name := filepath.Join(dir, fmt.Sprintf("corrupt%d", kk))
 			os.WriteFile(name, data, 0o644)
 			ncases++
 			var g1, g2 []string
